@@ -1,6 +1,7 @@
 (* C18 - the returned inverse-Hessian operator is built from genuine curvature pairs.
    Restates Proofs/DriverPairs.pairs_run, Proofs/DriverMemory and Proofs/Utils.diag_spec. *)
 From Coq Require Import List ZArith QArith Bool String Lia Floats.PrimFloat.
+From LBFGSB Require Generated.MainLoop.
 From LBFGSB Require Import Base.Res Base.Hoare Model.SF Model.FloatVec Model.Driver Generated.Memory
   Proofs.SFProofs Proofs.DriverValues Proofs.DriverMemory Proofs.DriverPairs Proofs.Utils.
 From LBFGSB Require Model.Bfgs.
@@ -64,6 +65,19 @@ Theorem C18_diag_source :
   ["n_params = hess_inv.shape[0]"; "hess_inv_diag = np.zeros(n_params)";
    "for i in range(n_params): v = np.zeros(n_params) v[i] = 1.0 hess_inv_diag[i] = hess_inv.matvec(v)[i]"; "return hess_inv_diag"]%string.
 Proof. reflexivity. Qed.
+
+(* TRANSLATION TIE: the branch of minimize_lbfgsb taken after a failed line search - the abort test len(X) == 1 and the memory reboot
+   X = Deque([X[-1]]); G = Deque([G[-1]]); mats = LBFGSB_MATRICES(n) - is translated from main.py on every run and IS the model's
+   fail_step: the rebooted history restarts from the last STORED point and ITS gradient (not from the current gradient). *)
+Theorem C18_reboot_from_source : forall (s : lst) t1,
+  let '(cont, s1) := fail_step s t1 in
+  if LBFGSB.Generated.MainLoop.abort_after_failed_search (s_X s)
+  then cont = false /\ s_msg s1 = MAbnormal /\ s_X s1 = s_X s /\ s_G s1 = s_G s
+  else cont = true /\ (s_X s1, s_G s1) = LBFGSB.Generated.MainLoop.reboot_history (s_x s) (s_g s) (s_X s) (s_G s) /\ s_mats s1 = None.
+Proof.
+  intros s t1. unfold fail_step, LBFGSB.Generated.MainLoop.abort_after_failed_search, LBFGSB.Generated.MainLoop.reboot_history, last_or.
+  destruct (Nat.eqb (List.length (s_X s)) 1); cbn; auto.
+Qed.
 
 Print Assumptions C18_pairs.
 Print Assumptions C18_at_most_maxcor.
